@@ -285,7 +285,8 @@ class Grid:
         mapped_kwargs: Dict[str, Any] = dict()
 
         if isinstance(kwargs, dict):
-            mapped_kwargs = kwargs
+            # work on a copy: defaults are filled into this mapping later on
+            mapped_kwargs = dict(kwargs)
         else:
             for axname in axes:
                 mapped_kwargs[axname] = kwargs
